@@ -44,6 +44,21 @@ def run(prop, tier, seed, work):
         sid = "C15-%s-%s" % (ty, pat)
         scen.append({"sid": sid, "prop": prop, "vals": [], "tags": [pat], "dkey": sid,
                      "steps": [{"op": "deep", "ty": ty, "pattern": pat, "depths": small + big, "bisect": True}]})
+    # mixtures: k repetitions of one pattern above the probed one (the budget is spent at different
+    # rates by different kinds of levels, so a skipped zero shows only for some prefixes)
+    mixes = [("struct", "list"), ("struct", "mapval"), ("list", "struct"), ("mapval", "list"), ("list", "mapval"), ("struct", "ulist"), ("ustruct", "ulist")]
+    mdepths = [1, 2, 10, 20, 23, 24, 30, 40, 100, 250, 255, 256, 300, 500, 510, 511, 512, 600, 1000, 1500, 3000, 100000]
+    for (pfx, pat) in mixes:
+        for pre in (range(1, 8) if not quick else (1, 2, 3, 4, 5)):
+            sid = "C15-mix-%s*%d+%s" % (pfx, pre, pat)
+            scen.append({"sid": sid, "prop": prop, "vals": [], "tags": ["mix"], "dkey": sid,
+                         "steps": [{"op": "deep", "ty": "Re", "prefix": pfx, "pre": pre, "pattern": pat, "depths": mdepths, "bisect": True}]})
+    # shallow but wide: 3 levels, many entries - always accepted whatever the size
+    wides = [1, 100, 1000, 1021, 1022, 1023, 1024, 1100, 2047, 2048, 5000, 70000]
+    for ty, pat in (("Re", "widelist"), ("Re", "widemap"), ("Re", "wideulist"), ("ReU", "wideulist")):
+        sid = "C15-%s-%s" % (ty, pat)
+        scen.append({"sid": sid, "prop": prop, "vals": [], "tags": ["wide"], "dkey": sid,
+                     "steps": [{"op": "deep", "ty": ty, "pattern": pat, "depths": wides, "bisect": False}]})
     suite.run_batches(res, work, [Batch("deep", defs, scen, maxstack=64 << 20)])
     res.distinct = set(range(res.lines))
     return suite.finish(res, RULE, ASSUME)
